@@ -640,6 +640,18 @@ func slowForward(r *rand.Rand) {
 				return
 			}
 		}
+		// signer objects a client obtained earlier (a hardware certificate and an agent key): using them later is one
+		// more way of talking to the underlying agent, and must wait its turn like every other operation
+		m := newMaterial(r, 2)
+		var kept []ssh.Signer
+		if err := callers[0].Add(m.addedKey(0)); err == nil {
+			ci := m.addHardCert(r, 0, time.Now().Add(time.Hour))
+			if err := callers[0].AddHardCert(m.certs[ci], "hw"); err == nil {
+				if sg, err := callers[1].Signers(); err == nil {
+					kept = sg
+				}
+			}
+		}
 		var wg sync.WaitGroup
 		problems := make([]string, nth)
 		started := make(chan struct{})
@@ -648,6 +660,19 @@ func slowForward(r *rand.Rand) {
 			go func(t int) {
 				defer wg.Done()
 				c := callers[t]
+				if t == 1 && len(kept) > 0 {
+					<-started
+					time.Sleep(150 * time.Millisecond)
+					for _, sg := range kept {
+						data := append([]byte("kept-signer "), newTag()...)
+						sig, err := sg.Sign(rngReader{r}, data)
+						if err != nil {
+							problems[t] = fmt.Sprintf("a signer obtained from Signers() earlier, used while another client waits for a slow reply: error %q", err.Error())
+						} else if verr := sg.PublicKey().Verify(data, sig); verr != nil {
+							problems[t] = "a signer obtained from Signers() earlier, used while another client waits for a slow reply: the signature does not verify: " + verr.Error()
+						}
+					}
+				}
 				if t == 0 {
 					tag := newTag()
 					req := append([]byte{slowMark, 5500 >> 8, 5500 & 0xff}, tag...)
